@@ -5,7 +5,7 @@ from .base import *
 
 RULE = ("hb: all 49 (interval, timeout) pairs of {1,2,3,5,10,30,60}s (timeout < interval and = interval included) x delay patterns "
         "(0, constant, jittered below T, alternately 0 and T-1, always T-1, late answers >= T+1, single dropped answers) x silence "
-        "(never, before the first request, after k exchanges) x modes (bare session, through Client, Client with stream traffic) x "
+        "(never, before the first request, after k exchanges) x modes (bare session, through Client, Client with stream traffic; prefix q: the peer also sends keep-alive requests and padding of its own every 777 ms) x "
         "client->peer transport (unbounded, or bounded to 64 / 256 / 1024 bytes so that padded packets are still being written while the peer answers; "
         "the no-false-close patterns run over all 49 pairs on a bounded transport as well). "
         "Non-trivial = at least 3 requests in the observation window, or a closure; distinct by sha256 of the case.")
@@ -78,6 +78,19 @@ def gen_cases(tier, seed):
                 mode = r.choice(["s", "c", "ct"]) + str(r.choice([64, 256, 1024]))
                 n += 1
                 cs.append(Case("hb%d" % n, "hb", [mode, I, T, H] + sc, "%s/%s" % (mode, name), True, meta={"pattern": name, "bounded": True}))
+    # a peer with traffic of its own: it sends keep-alive REQUESTS (and padding) every 777 ms whether or not it answers the
+    # client's requests (mode prefix q). Requests are not answers: the same rule, the same model run
+    for Is, Ts in ((1, 3), (2, 2), (3, 1), (5, 10), (10, 5), (30, 10), (2, 60)):
+        I, T = Is * 1000, Ts * 1000
+        nreq = 5
+        H = nreq * I + T + I + 500
+        for name, sc in scripts(r, I, T, nreq + 2):
+            if tier == "quick" and name in ("const", "jitter", "drop1", "alt0max"):
+                continue
+            mode = "q" + r.choice(["s", "c", "ct", "s256", "c1024"])
+            n += 1
+            cs.append(Case("hq%d" % n, "hb", [mode, I, T, H] + ["x" if d is None else d for d in sc], "%s/%s" % (mode, name.split("-")[0]),
+                           True, meta={"pattern": name, "chatty_peer": True}))
     # the peer vanishes (stops reading, never closes) after answering its first k requests at once; the client's transport
     # is a 64 / 256-byte pipe that fills up, so the next write stays pending. Implementation only (the model's writes are
     # instantaneous); judged by the same detection bound; known finding F4.
